@@ -29,6 +29,9 @@ HYP_TOL = 1e-10     # named hypotheses on the real grids
 INV_TOL = 1e-10     # relative T_ref dependence of a total tendency
 RES_TOL = 1e-9      # measured cloud residual vs its closed form
 RES_MIN = 1e-7      # the cloud residual is "really non-zero"
+LINEAR_CEILING = 0.2   # known findings on linear grids (aliasing-level T_ref dependence, recorded 2e-4 .. 5e-2 of the
+                       # total tendency): anything above this ceiling is NOT the known finding but a gross new dependence
+NEG_MIN = 1e-3      # negative control: an unmasked 'clipped' array must violate `roundtrip` at least this much
 CLASSES = ('dry', 'time', 'moist', 'cloud')
 GROUPS = dict(vorticity='momentum', divergence='momentum', temperature_variation='temperature',
               log_surface_pressure='pressure')
@@ -41,7 +44,7 @@ RULE = ('correspondence: with_wavenumbers grids M=4..6 (quadratic, one linear, o
         'on quadratic/cubic/linear grids, 1..8 layers, three profiles (constant, linear, random) of the same absolute '
         'temperature, include_vertical_advection=True; a case is non-trivial when layers >= 2 or the state has all '
         'fields non-zero; distinct = distinct (configuration, operation) resp. (class, grid, level set, state) hashes')
-NOTE = ('the horizontal linear operators enter the model as matrices taken from the real Grid (their properties are the '
+NOTE = ('M = masked coefficient space (the modal carrier of the theorems is the space of masked coefficient arrays: laws, mask closure and a negative control are validated on every grid used); the horizontal linear operators enter the model as matrices taken from the real Grid (their properties are the '
         'named hypotheses validated here and the subject of C01/C02); numpy.linalg.inv is external (C03); with '
         'include_vertical_advection=False the property is not claimed (vertical advection of T\' is then done by the '
         'semi-Lagrangian step outside explicit_terms)')
@@ -60,6 +63,7 @@ class _Env:
     self.CL = dict(dry=pe.PrimitiveEquations, time=pe.PrimitiveEquationsWithTime, moist=pe.MoistPrimitiveEquations,
                    cloud=pe.MoistPrimitiveEquationsWithCloudMoisture)
     self._grids, self._ones = {}, {}
+    self.law_checked = set()   # keys of self._grids on which the named laws were validated
 
   def grid(self, spec, radius=1.0):
     """spec = (M, dealiasing) or a named truncation 'T21' / 'TL31'; returns (grid, kind)."""
@@ -380,6 +384,7 @@ def _hypotheses(ctx, E):
   least = {}          # 'linear' -> min over the linear grids of the larger of the two product-rule violations
   for spec in specs:
     grid, kind = E.grid(spec)
+    E.law_checked.add((spec, 1.0))
     ctx.dist[f'hyp-grid={kind}'] += 1
     per_grid = {}
     for di in range(draws):
@@ -402,6 +407,85 @@ def _hypotheses(ctx, E):
     ctx.obligation(f'{h}: {text} [real grids: {", ".join(req)}]', 'hypothesis', set(req) <= validated[h],
                    f'worst relative violation {detail}')
   return validated, least.get('linear', 0.0)
+
+
+def _mask_checks(ctx, E, validated):
+  """The carrier `M` of the theorems is the space of MASKED coefficient arrays (review B, C04 finding 1).
+
+  On EVERY grid used by this run (correspondence, hypotheses, search; all radii): (a) the named laws on masked inputs
+  (grids not already covered by `_hypotheses` are validated here), (b) `MaskClosed`: every modal operation of `HOps`
+  maps masked arrays to masked arrays and `to_modal` lands in the masked arrays - EXACT zeros outside `grid.mask` -
+  and (c) the negative control: an unmasked array with clip x = x violates `roundtrip`, and `to_nodal` ignores the
+  entries outside the mask (so the masked arrays are exactly the right carrier: the domain is pinned from both sides).
+  """
+  rng, jnp = ctx.rng, E.jnp
+  ops = ('d_dlon', 'cos_lat_d_dlat', 'sec_lat_d_dlat_cos2', 'laplacian', 'inverse_laplacian', 'clip_wavenumbers')
+  closed_worst, closed_where = 0.0, ''
+  neg_least, neg_where, junk_worst = np.inf, '', 0.0
+  law_worst, law_where, nlaw = 0.0, '', 0
+  ngrids = 0
+  for (spec, radius), (grid, kind) in sorted(E._grids.items(), key=lambda kv: repr(kv[0])):
+    gname = f'{_spec_name(spec)}@r={radius:g}'
+    ngrids += 1
+    mask = np.asarray(grid.mask).astype(bool)
+    outside = ~mask
+    ms = grid.modal_shape
+    inp = dict(grid=gname, modal_shape=list(ms), entries_outside_mask=int(outside.sum()))
+    ctx.case(('mask', gname, ctx.seed), nontrivial=True, branch='mask-closure-grid')
+    with ctx.impl('mask-closure-exception', inp):
+      # (b) closure, exact
+      x = rng.standard_normal(ms) * mask
+      z = rng.standard_normal(grid.nodal_shape)
+      leaks = {'to_modal': float(np.abs(np.asarray(grid.to_modal(jnp.asarray(z)))[outside]).max(initial=0.0)),
+               'oneModal': float(np.abs(E.one(grid)[outside]).max(initial=0.0))}
+      for op in ops:
+        leaks[op] = float(np.abs(np.asarray(getattr(grid, op)(jnp.asarray(x)))[outside]).max(initial=0.0))
+      for pair_op in ('curl_cos_lat', 'div_cos_lat'):
+        y = rng.standard_normal(ms) * mask
+        leaks[pair_op] = float(np.abs(np.asarray(getattr(grid, pair_op)((jnp.asarray(x), jnp.asarray(y)), clip=False))
+                                      [outside]).max(initial=0.0))
+      for op, v in leaks.items():
+        if v >= closed_worst:
+          closed_worst, closed_where = v, f'{op} on {gname}'
+        ctx.expect(v == 0.0, f'mask-closure:{op}', f'{op} maps a masked coefficient array (resp. a nodal field) to an '
+                   f'array with non-zero entries outside grid.mask on {gname}: max |entry| = {v:.3e}', dict(inp, op=op))
+      # (c) negative control
+      xu = np.asarray(grid.clip_wavenumbers(jnp.asarray(rng.standard_normal(ms))))
+      junk = xu * outside
+      is_clipped = _rel(grid.clip_wavenumbers(jnp.asarray(xu)), xu) == 0.0
+      defect = _rel(grid.clip_wavenumbers(grid.to_modal(grid.to_nodal(jnp.asarray(xu)))), xu)
+      junk_nodal = float(np.abs(np.asarray(grid.to_nodal(jnp.asarray(junk)))).max(initial=0.0))
+      junk_worst = max(junk_worst, junk_nodal)
+      if not (outside.any() and np.abs(junk).max() > 0 and is_clipped):
+        defect = 0.0   # no entry outside the mask survives clip: the masked reading would not be needed (never observed)
+      if defect <= neg_least:
+        neg_least, neg_where = defect, gname
+      # (a) the laws on masked inputs, on the grids `_hypotheses` did not visit (other radii, thorough-tier scenarios)
+      if (spec, radius) not in E.law_checked:
+        nlaw += 1
+        for hname, e in _laws(E, grid, rng).items():
+          if hname in PRODUCT_RULES and kind not in ('quadratic', 'cubic'):
+            continue
+          if e >= law_worst:
+            law_worst, law_where = e, f'{hname} on {gname}'
+          ctx.expect(e <= HYP_TOL, f'law:{hname}', f'named hypothesis `{hname}` ({HYP_TEXT.get(hname, "linearity")}) '
+                     f'fails for masked inputs on {gname}: relative violation {e:.3e}', dict(inp, hypothesis=hname))
+  ctx.obligation('M = masked coefficient space: MaskClosed (every HOps field maps masked arrays to masked arrays, to_modal '
+                 'and oneModal are masked: exact zeros outside grid.mask) on every grid used', 'hypothesis',
+                 closed_worst == 0.0, f'{ngrids} grids; largest entry outside the mask {closed_worst:.1e} ({closed_where})')
+  ctx.obligation('M = masked coefficient space, negative control: an UNMASKED array with clip x = x violates '
+                 f'Laws.roundtrip (relative defect > {NEG_MIN:g}) on every grid used, and to_nodal ignores the entries '
+                 'outside the mask exactly', 'hypothesis', bool(neg_least > NEG_MIN and junk_worst == 0.0),
+                 f'{ngrids} grids; smallest roundtrip defect of an unmasked input {neg_least:.2e} ({neg_where}); '
+                 f'largest |to_nodal(entries outside the mask)| = {junk_worst:.1e}')
+  ctx.obligation('named laws on masked inputs on the grids not visited by the hypothesis sweep (other radii, search '
+                 'scenarios)', 'hypothesis', law_worst <= HYP_TOL,
+                 f'{nlaw} further grids; worst relative violation {law_worst:.1e} ({law_where})')
+  ctx.notes.append('M = masked coefficient space: the laws Laws.roundtrip / curl_grad / div_grad / div_uv and MoistLaws are '
+                   'validated on masked inputs (LawsOn), every HOps field preserves the mask exactly (MaskClosed), and an '
+                   f'unmasked input violates roundtrip (smallest defect {neg_least:.2e}); the theorems are applied with the '
+                   'carrier M := the masked arrays (Lean: total_tendency_indep_of_reference_masked, laws_restrict); states of '
+                   'the search have masked leaves (standard_normal * mask)')
 
 
 # --------------------------------------------------------------------------
@@ -431,6 +515,7 @@ def _sentinel(ctx, E, shared, validated):
   must_invariant_kinds = set()     # grid kinds on which a moist-type momentum probe had to be invariant
   measured = {}                    # (class, kind, group) -> worst relative dependence
   res_seen = []                    # (kind, wind amplitude, size / total tendency, size / natural scale, mismatch)
+  lin_res_seen = []                # (kind, wind amplitude, mismatch) of (iii) on grids not resolving the product rule
   div_margin, q_clip_err = np.inf, 0.0   # side conditions of T4.3/T4.4 on the generated humidity fields
 
   def totals(cls, eq_args, tref, st, one, iva=True, vmm=None):
@@ -503,6 +588,7 @@ def _sentinel(ctx, E, shared, validated):
     runs = [('dry', dict(st, tr=dry_tr)), ('time', dict(st, tr=dry_tr)), ('moist', dict(st, tr=moist_tr)),
             ('cloud', dict(st, tr=cloud_tr)),
             ('cloud-no-condensate', dict(st, tr=dict(moist_tr, **{k: np.zeros((n,) + ms) for k in (D.QL_KEY, D.QI_KEY)})))]
+    tots_by_name = {}
     for name, s in runs:
       cls = 'cloud' if name == 'cloud-no-condensate' else name
       cinp = dict(inp, cls=name, tracers=sorted(s['tr']))
@@ -513,6 +599,7 @@ def _sentinel(ctx, E, shared, validated):
         tots = [totals(cls, eq_args, t, s, one, vmm=vmm) for t in trefs]
       if len(tots) != len(trefs):
         continue
+      tots_by_name[name] = tots
       dep = {}
       for f in tots[0]:
         scale = max(np.abs(t[f]).max() for t in tots)
@@ -528,6 +615,11 @@ def _sentinel(ctx, E, shared, validated):
             # product_rule_resolved is not validated on this kind of grid: T4.3 does not apply; the dependence is
             # the one of the moist class (a cloud class without condensate is the moist class)
             key = f'tref-dependence:moist:{kind}:{grp}'
+        if (grp == 'momentum' and name in MOIST_LIKE and kind not in pr_kinds and np.isfinite(v)
+            and v > LINEAR_CEILING):
+          # the known findings on grids that do not resolve the product rule are aliasing-level (recorded 2e-4..5e-2):
+          # a dependence above the ceiling is something else and must not be absorbed by the known-finding key
+          key = f'tref-dependence-gross:{name}:{kind}:{grp}'
         measured[(name, kind, grp)] = max(measured.get((name, kind, grp), 0.0), v)
         ctx.expect(np.isfinite(v) and v <= INV_TOL, key,
                    f'explicit+implicit {grp} tendency of the {name} class depends on the reference temperature: relative '
@@ -559,6 +651,34 @@ def _sentinel(ctx, E, shared, validated):
                    f'clip(R·(T1-T2)·(curl|div)_cos_lat((q_l+q_i)·sec2·cos_lat_grad(ln ps))): mismatch {mism:.3e} of the '
                    'total tendency', cinp)
 
+    # (iii) grids that do NOT resolve the product rule (linear): the cloud-class dependence is a known finding there, but
+    # it is not free: the condensate enters through the flux-form term only, so the dependence of the cloud class MINUS
+    # the dependence of the same state without condensate (= the moist class, aliasing included) is again the closed form
+    # of cloud_split_residual, to rounding.  Only the aliasing-level dependence of the moist class itself stays bounded
+    # by LINEAR_CEILING alone.
+    if kind not in pr_kinds and 'cloud' in tots_by_name and 'cloud-no-condensate' in tots_by_name:
+      tc, tn_ = tots_by_name['cloud'], tots_by_name['cloud-no-condensate']
+      sec2, R = grid.sec2_lat, specs.R
+      g = grid.cos_lat_grad(jnp.asarray(st['p']), clip=False)
+      gu, gv = grid.to_nodal(g[0]), grid.to_nodal(g[1])
+      c = grid.to_nodal(jnp.asarray(cloud_tr[D.QL_KEY])) + grid.to_nodal(jnp.asarray(cloud_tr[D.QI_KEY]))
+      cGS = (grid.to_modal(c * gu * sec2), grid.to_modal(c * gv * sec2))
+      ops = dict(vorticity=np.asarray(grid.curl_cos_lat(cGS, clip=False)),
+                 divergence=np.asarray(grid.div_cos_lat(cGS, clip=False)))
+      mism = 0.0
+      for (ia, ib) in itertools.combinations(range(len(trefs)), 2):
+        dt = (trefs[ia] - trefs[ib])[:, None, None]
+        for f, o in ops.items():
+          pred = np.asarray(clip(jnp.asarray(R * dt * o)))
+          meas = (tc[ib][f] - tc[ia][f]) - (tn_[ib][f] - tn_[ia][f])
+          scale = max(np.abs(t[f]).max() for t in tc)
+          mism = max(mism, float(np.abs(meas - pred).max() / scale))
+      lin_res_seen.append((kind, amp, mism))
+      ctx.expect(mism <= RES_TOL, f'cloud-residual-mismatch:{kind}',
+                 'on a grid that does not resolve the product rule, the T_ref dependence of the cloud class minus that of '
+                 'the same state without condensate is not the closed form clip(R·(T1-T2)·(curl|div)_cos_lat((q_l+q_i)·sec2·'
+                 f'cos_lat_grad(ln ps))): mismatch {mism:.3e} of the total tendency', dict(inp, cls='cloud - cloud-no-condensate'))
+
   # include_vertical_advection=False: not claimed; measured once for the record
   if not ctx.quick:
     with ctx.impl('tref-dependence-exception:dry-no-vertical-advection', inp):
@@ -580,6 +700,10 @@ def _sentinel(ctx, E, shared, validated):
             'R·|ΔT_ref|·|q_l+q_i|·|lap ln ps| | mismatch to the measured difference: ' +
             ', '.join(f'{k} (amplitude {a:g}): {s:.1e} | {nt:.1e} | {m:.1e}' for k, a, s, nt, m in res_seen))
   ctx.notes.append('cloud_split_residual: ' + detail)
+  ctx.notes.append('linear grids (known findings, bounded): moist-type momentum dependence above LINEAR_CEILING = '
+                   f'{LINEAR_CEILING} is reported under tref-dependence-gross:* (not a known finding); cloud minus '
+                   'cloud-without-condensate dependence vs closed form (mismatch): ' +
+                   (', '.join(f'{k} (amplitude {a:g}): {m:.1e}' for k, a, m in lin_res_seen) or 'no such scenario'))
   ctx.obligation('cloud_split_residual is non-zero on the real grid', 'hypothesis', ok_res, detail)
   ctx.obligation('side conditions of T4.3/T4.4 hold on every generated moist state: the humidity column is clipped like '
                  'the rest of the state (clip q = q) and 1 + (Cp_vapor/Cp - 1)·q stays away from 0 at every node '
@@ -599,7 +723,7 @@ def run(ctx: common.Ctx):
   # DynamicsMoist (T4.3/T4.4) and DynamicsToy (non-vacuity instance, cloud witness) are imported by the property
   # module; they are source-audited when present (a missing one breaks the build of the property module)
   lemma_files = ['DinoProofs/Lemmas/Dynamics.lean', 'DinoProofs/Lemmas/DynamicsMoist.lean',
-                 'DinoProofs/Lemmas/DynamicsToy.lean', 'Dino/Dynamics.lean']
+                 'DinoProofs/Lemmas/DynamicsToy.lean', 'DinoProofs/Lemmas/DynamicsMasked.lean', 'Dino/Dynamics.lean']
   ctx.lean('DinoProofs.Properties.C04', 'C04.txt',
            extra_files=[f for f in lemma_files if os.path.exists(os.path.join(common.LEAN, f))])
 
@@ -611,6 +735,7 @@ def run(ctx: common.Ctx):
   _correspondence(ctx, E, shared)
   validated, linear_violation = _hypotheses(ctx, E)
   must_invariant_kinds = _sentinel(ctx, E, shared, validated)
+  _mask_checks(ctx, E, validated)
 
   pr_kinds = validated[PRODUCT_RULES[0]] & validated[PRODUCT_RULES[1]]
   ctx.obligation('product_rule_resolved is not resolved on linear grids (expected), and the moist theorems are only '
